@@ -137,7 +137,7 @@ theorem l7_ats_own {s : Sys} (hsu : SU s) (halg : s.alg = .queue) {p : Proc} (hp
     (hk : p.k = .allocTasks o sc pa po false) (hnr : ∀ e, (s.block p orc).2.2 ≠ .raised e)
     {pl : Plan} (hpl : s.plan? o = some pl) {sc' pa' : List (Tid × Mid)} {po' : List Tid}
     (hk' : (s.block p orc).2.1 = .allocTasks o sc' pa' po' false) :
-    ∃ plan out removed added,
+    ∃ (plan : Plan) (out : AlgOut) (removed added : List Tid),
       plan.edges = pl.edges ∧ (∀ t, t ∈ plan.tasks ↔ t ∈ pl.tasks ∧ tstat s t ≠ .finished) ∧
       (∀ k ∈ dictKeys sc, k ∈ dictKeys out.schedule) ∧
       (∀ t ∈ removed, t ∈ dictKeys out.schedule) ∧
@@ -176,7 +176,7 @@ theorem l7_ats_own {s : Sys} (hsu : SU s) (halg : s.alg = .queue) {p : Proc} (hp
       out.schedule.isEmpty = true → X.plans = (atS3 ((atStart s p.wake p.pc o).updateCurrentPlan o) out o).plans →
       X.tasks = (atS3 ((atStart s p.wake p.pc o).updateCurrentPlan o) out o).tasks →
       sc' = out.schedule → po' = out.pool →
-      ∃ plan out removed added,
+      ∃ (plan : Plan) (out : AlgOut) (removed added : List Tid),
         plan.edges = pl.edges ∧ (∀ t, t ∈ plan.tasks ↔ t ∈ pl.tasks ∧ tstat s t ≠ .finished) ∧
         (∀ k ∈ dictKeys sc, k ∈ dictKeys out.schedule) ∧
         (∀ t ∈ removed, t ∈ dictKeys out.schedule) ∧
